@@ -26,6 +26,8 @@ var VerifDir = func() string {
 	return "/verif"
 }()
 
+var triage = os.Getenv("VERIF_TRIAGE") != ""
+
 // Violation is one disagreement between implementation and oracle.
 type Violation struct {
 	// Sig is the narrow signature used to match known findings. Checks set it to a
@@ -147,6 +149,9 @@ func (r *Run) Violate(v Violation) {
 		b, _ := json.Marshal(v.Case)
 		h := sha1.Sum(b)
 		v.Sig = "case-" + hex.EncodeToString(h[:6])
+	}
+	if triage {
+		fmt.Fprintf(os.Stderr, "TRIAGE %s\t%s\n", v.Sig, oneLine(v.What))
 	}
 	r.mu.Lock()
 	defer r.mu.Unlock()
